@@ -179,7 +179,7 @@ func gen(seed uint64, tier string) Scenario {
 			h := Hostile{StartUS: at, SameHost: true, Cookie: "R", TLS: sc.Secure, End: []string{"close", "silent", "rst"}[(x>>(40+2*uint(k)))%3],
 				Msgs: []Msg{{Tmpl: "http-post"}, {Tmpl: "b64", Read: true}, {Tmpl: "b64"}}}
 			sc.Hostile = append(sc.Hostile, h)
-			at += int(core.HS(seed, "c11.tunnelrace.gap", "", uint64(k)) % 30000)
+			at += 53 + int(core.HS(seed, "c11.tunnelrace.gap", "", uint64(k))%30000) // never at the same instant: the order would be the runtime's choice
 		}
 		deaf = false
 		race = true
